@@ -21,6 +21,9 @@ type Header struct {
 	// Whole packet length (fixed header + variable part).
 	pktLength uint16
 	pktType   PacketType
+	// The 4-byte header form is used. A packet longer than 255B must use it,
+	// a received shorter packet may use it too.
+	longHeader bool
 }
 
 func NewHeader(pktType PacketType, varPartLength uint16) *Header {
@@ -41,8 +44,10 @@ func (h *Header) PacketType() PacketType {
 func (h *Header) SetVarPartLength(length uint16) {
 	if length+shortHeaderLength <= 255 {
 		h.pktLength = length + shortHeaderLength
+		h.longHeader = false
 	} else {
 		h.pktLength = length + longHeaderLength
+		h.longHeader = true
 	}
 }
 
@@ -64,10 +69,10 @@ func (h *Header) PacketLength() uint16 {
 //
 // See MQTT-SN specification v. 1.2, chapter 5.2 General Message Format.
 func (h *Header) HeaderLength() uint16 {
-	if h.pktLength <= 255 {
-		return shortHeaderLength
-	} else {
+	if h.longHeader {
 		return longHeaderLength
+	} else {
+		return shortHeaderLength
 	}
 }
 
@@ -85,10 +90,12 @@ func (h *Header) Unpack(buf []byte) error {
 		}
 		h.pktLength = binary.BigEndian.Uint16(buf[1:3])
 		h.pktType = PacketType(buf[3])
+		h.longHeader = true
 	} else {
 		// Short packet (<=255B)
 		h.pktLength = uint16(lengthByte)
 		h.pktType = PacketType(buf[1])
+		h.longHeader = false
 	}
 
 	return nil
@@ -101,7 +108,7 @@ func (h *Header) Unpack(buf []byte) error {
 func (h *Header) PackToBuffer() *bytes.Buffer {
 	buf := bytes.NewBuffer(make([]byte, 0, h.pktLength))
 
-	if h.pktLength > 255 {
+	if h.longHeader {
 		_ = buf.WriteByte(longPacketFlag)
 		_, _ = buf.Write(EncodeUint16(h.pktLength))
 	} else {
